@@ -129,7 +129,7 @@ func (c *Case) rewriteDataStrings(f func(ctx strCtx, s string) (string, bool)) {
 }
 
 func (c *Case) rescanInfo() *rsInfo {
-	in := &rsInfo{chain: 1 + len(c.Children), supplied: map[string]bool{}, inLoop: map[string]bool{}, inIf: map[string]bool{}, itemKeys: map[string]bool{}}
+	in := &rsInfo{chain: c.maxRenderDepth(), supplied: map[string]bool{}, inLoop: map[string]bool{}, inIf: map[string]bool{}, itemKeys: map[string]bool{}}
 	for k := range c.Data.Vars {
 		in.supplied[k] = true
 	}
